@@ -142,7 +142,31 @@ def run(ctx):
                 return "prescribed root %s not returned (closest %s): got %s" % (w, g, got)
             rest.remove(g)
         return None
-    sweep(ctx, "bezier_roots_prescribed", cases, [("hazmat.alg_bezier_roots", lambda c: [enc_vec(c["bern"])])], judge_roots, configs=("pure",))
+    def known_roots(c, op, cfg, raw):
+        """F16: input elevated at least twice - every prescribed root is returned, plus huge spurious ones (the multiple point at infinity)"""
+        if c["elevated"] < 2 or "exc" in raw:
+            return None
+        got = [complex(float.fromhex(z[0]), float.fromhex(z[1])) for z in raw["ok"]]
+        want = [complex(float(a_), float(b_)) for a_, b_ in c["roots"]]
+        tol = 1e-4 if c["repeated"] else 1e-7
+        rest = list(got)
+        for w in want:
+            if not rest:
+                return None
+            g = min(rest, key=lambda z: abs(z - w))
+            if abs(g - w) > tol * max(1.0, abs(w)):
+                return None
+            rest.remove(g)
+        if rest and all(abs(z) >= 2.0 ** 16 for z in rest) and len(rest) <= c["elevated"]:
+            return ("F16 bezier_roots returns the multiple root at infinity of an input that was degree-elevated at least twice as huge finite "
+                    "roots (|z| > 2^16): sigma = -1 is then a multiple eigenvalue and is computed with error ~ sqrt(eps), beyond the filter threshold")
+        return None
+    sweep(ctx, "bezier_roots_prescribed", cases, [("hazmat.alg_bezier_roots", lambda c: [enc_vec(c["bern"])])], judge_roots, configs=("pure",), known=known_roots)
+    # pinned instance of F16
+    pin = {"bern": [F(x) for x in (578340, 623196, 612969, 573315, 518226, 455214, 388335, 319949, 252112, 188496)],
+           "roots": [(F(3, 2), F(0)), (F(3, 2), F(0)), (F(-3, 8), F(0)), (F(1), F(2)), (F(1), F(-2)), (F(1, 2), F(2)), (F(1, 2), F(-2))],
+           "repeated": True, "elevated": 2}
+    sweep(ctx, "bezier_roots_pinned_F16", [pin], [("hazmat.alg_bezier_roots", lambda c: [enc_vec(c["bern"])])], judge_roots, configs=("pure",), known=known_roots)
     return finish(ctx, "PROVED (functions regenerated from algebraic_intersection.py): the implicit function of degree 1 and 2 vanishes on "
                   "its curve (degree 1: it IS the line equation); the interpolation formulas return exactly K (=1, 3) times the power-basis "
                   "coefficients of the sampled polynomial for degree <= 4; Bernstein -> power basis represents the same polynomial for degree "
